@@ -418,6 +418,7 @@ fn main() {
     let mode = std::env::args().nth(1).unwrap_or_default();
     panic::set_hook(Box::new(|_| {}));
     match mode.as_str() {
+        "bnd_tables" => bounded::bnd_tables(),
         "bnd_c08" => bounded::bnd_c08(),
         "bnd_c13" => bounded::bnd_c13(),
         "bnd_c18" => bounded::bnd_c18(),
